@@ -409,6 +409,20 @@ impl Run<'_> {
                         }
                     }
                 }
+                Action::AckRender => match self.host.ack_render() {
+                    None => {
+                        cov.bump("skipped_action");
+                        continue;
+                    }
+                    Some(true) => {
+                        self.faults += 1;
+                        cov.bump("fault:bridge_render_acknowledged");
+                        self.renders_seen = self.renders_seen.saturating_sub(1);
+                    }
+                    Some(false) => {
+                        return Err(viol(id, "render_ack_not_rejected", format!("step {si}: a response to a render request was not rejected")));
+                    }
+                },
                 Action::BadItem { site, arg } => {
                     let key = (*site, *arg);
                     match self.host.bad_item(key) {
